@@ -8,6 +8,7 @@ import (
 	"net/http"
 	"sort"
 	"strings"
+	"time"
 
 	"github.com/go-openapi/runtime"
 	"github.com/go-openapi/runtime/client"
@@ -89,6 +90,7 @@ func (t typedFile) ContentType() string { return "application/x-verif" }
 // ---- scripted response body ----
 
 type respBody struct {
+	stall           bool // the peer never sends the rest: Read blocks for ever
 	data            []byte
 	pos             int
 	fail            bool // fails instead of delivering its last byte
@@ -100,6 +102,9 @@ type respBody struct {
 func (b *respBody) Read(p []byte) (int, error) {
 	if len(p) == 0 {
 		return 0, nil
+	}
+	if b.stall {
+		verifrt.Block("stalled-response-body", func() bool { return false })
 	}
 	if b.pos >= len(b.data) {
 		b.atEnd = true
@@ -138,12 +143,31 @@ type stubT struct {
 	returned string
 	sawDone  bool
 	ct       string // Content-Type of the response
+	// what the request context said when the transport was entered
+	entered     bool
+	enterAt     time.Time
+	deadline    time.Time
+	hasDeadline bool
+	stallBody   bool // fixed script: read the request, answer 200 with a body that never ends
 }
 
 var errTransport = errors.New("injected transport error")
 
 func (t *stubT) RoundTrip(req *http.Request) (*http.Response, error) {
 	verifrt.P("transport:enter")
+	t.entered, t.enterAt = true, time.Now()
+	t.deadline, t.hasDeadline = req.Context().Deadline()
+	if t.stallBody {
+		if req.Body != nil {
+			_, _ = io.Copy(io.Discard, req.Body)
+			req.Body.Close()
+		}
+		t.mode = 0
+		t.resp = &respBody{data: []byte("response-text"), stall: true}
+		t.returned = "response"
+		return &http.Response{StatusCode: 200, Status: "200 OK", Proto: "HTTP/1.1", ProtoMajor: 1, ProtoMinor: 1,
+			Header: http.Header{"Content-Type": []string{"text/plain"}}, Body: t.resp, Request: req}, nil
+	}
 	n := 5
 	if t.stallOK {
 		n = 6
@@ -230,6 +254,9 @@ type e3Scenario struct {
 	OneField   bool // all files under one form field name
 	Debug      bool // Runtime.Debug: request and response are dumped to the logger
 	WithClient bool // the Runtime is built around an existing http.Client (NewWithClient), reuse enabled afterwards
+	// twin scenarios only:
+	TwinTimeouts bool // the first call asks for a request timeout of one hour, the second for none
+	TwinStalls   bool // the second call has no deadline at all and its response body never ends
 }
 
 type quietLogger struct{}
@@ -255,6 +282,8 @@ func e3Scenarios() []e3Scenario {
 		{Name: "json-payload-reuse-enabled-on-existing-client", Payload: "json", Reuse: true, WithClient: true},
 		{Name: "two-overlapping-uploads", Fields: true, Files: 1, Twin: true, NoSrcFault: true},
 		{Name: "two-overlapping-uploads-reuse-faults", Files: 1, Twin: true, Reuse: true},
+		{Name: "two-overlapping-calls-different-timeouts", Payload: "json", Twin: true, TwinTimeouts: true},
+		{Name: "two-overlapping-calls-debug-one-stalls-for-ever", Payload: "json", Twin: true, Debug: true, Canceller: true, TwinStalls: true},
 	}
 }
 
@@ -286,6 +315,10 @@ type e3World struct {
 	readerMode int
 	twin       *e3World
 	label      string
+	timeoutSet bool
+	timeout    time.Duration
+	startAt    time.Time
+	stalls     bool // this call is expected never to return (no deadline, peer never finishes)
 }
 
 func newE3World(sc e3Scenario) *e3World {
@@ -299,8 +332,19 @@ func newE3World(sc e3Scenario) *e3World {
 	if sc.Twin {
 		t := sc
 		t.Twin = false
+		if sc.TwinStalls {
+			t.Canceller = false
+		}
 		w.twin = newE3World(t)
 		w.twin.label = "second call: "
+		if sc.TwinTimeouts {
+			w.timeoutSet, w.timeout = true, time.Hour
+			w.twin.timeoutSet, w.twin.timeout = true, 0
+		}
+		if sc.TwinStalls {
+			w.twin.stalls = true
+			w.twin.tr.stallBody = true
+		}
 		for i, f := range w.twin.files {
 			f.name = fmt.Sprintf("dir/g%d.txt", i+1)
 			f.data = []byte(strings.Repeat(string(rune('p'+i)), 4))
@@ -384,6 +428,11 @@ func (w *e3World) launch(rt *client.Runtime, name string, own *http.Client) {
 			case "readcloser":
 				_ = req.SetBodyParam(w.payload)
 			}
+			if w.timeoutSet {
+				if err := req.SetTimeout(w.timeout); err != nil {
+					return err
+				}
+			}
 			if sc.Fault == "params" {
 				return errParams
 			}
@@ -425,6 +474,7 @@ func (w *e3World) launch(rt *client.Runtime, name string, own *http.Client) {
 	}
 	op.Client = own
 	verifrt.GoNamed(name, func() {
+		w.startAt = time.Now()
 		w.res, w.err = rt.Submit(op)
 		w.returned = true
 	})
@@ -437,7 +487,7 @@ func (w *e3World) launch(rt *client.Runtime, name string, own *http.Client) {
 // judge evaluates the invariants of C12 on one finished execution (both calls of a twin scenario).
 func (w *e3World) judge(x *verifrt.Exec) (class, what string) {
 	class, what = w.judgeOne(x)
-	if class == "" && w.twin != nil {
+	if class == "" && w.twin != nil && !w.twin.stalls {
 		if c2, w2 := w.twin.judgeOne(x); c2 != "" {
 			return c2, w.twin.label + w2
 		}
@@ -460,6 +510,17 @@ func (w *e3World) judgeOne(x *verifrt.Exec) (class, what string) {
 	if x.Aborted {
 		return "horizon-reached", "execution did not finish"
 	}
+	if w.twin != nil && w.twin.stalls {
+		// the other call waits for ever by construction (no deadline, a peer that never finishes): its
+		// thread stays blocked; nothing else may, and this call must not depend on it
+		var rest []string
+		for _, b := range x.Blocked {
+			if !strings.HasSuffix(b, ": stalled-response-body") {
+				rest = append(rest, b)
+			}
+		}
+		x = &verifrt.Exec{Steps: x.Steps, Blocked: rest, Deadlock: len(rest) > 0, Preemptions: x.Preemptions, DataDevs: x.DataDevs}
+	}
 	if !w.returned {
 		return "call-never-returns" + sfx, fmt.Sprintf("Submit did not return; blocked threads: %v", x.Blocked)
 	}
@@ -476,6 +537,19 @@ func (w *e3World) judgeOne(x *verifrt.Exec) (class, what string) {
 				continue
 			}
 			return "upload-source-not-closed" + sfx, fmt.Sprintf("source %s never closed (Submit err=%v, transport: %s)", f.name, w.err, w.tr.returned)
+		}
+	}
+	if w.timeoutSet && w.tr.entered {
+		// the deadline the transport saw is this call's own: request timeout T (0 = none) on a caller
+		// context without deadline. The context was made between the start of Submit and the entry into
+		// the transport, whatever the schedule did in between.
+		switch {
+		case w.timeout == 0 && w.tr.hasDeadline:
+			return "effective-deadline-wrong", fmt.Sprintf("the call asked for no request timeout and its context has none, yet the request context carries a deadline %v from now", w.tr.deadline.Sub(w.tr.enterAt).Round(time.Second))
+		case w.timeout > 0 && !w.tr.hasDeadline:
+			return "effective-deadline-wrong", fmt.Sprintf("the call asked for a request timeout of %v, the request context carries no deadline at all", w.timeout)
+		case w.timeout > 0 && (w.tr.deadline.Before(w.startAt.Add(w.timeout)) || w.tr.deadline.After(w.tr.enterAt.Add(w.timeout))):
+			return "effective-deadline-wrong", fmt.Sprintf("the call asked for a request timeout of %v, the request context expires %v after the call started", w.timeout, w.tr.deadline.Sub(w.startAt).Round(time.Millisecond))
 		}
 	}
 	complete := w.tr.returned == "response" && w.tr.mode != 4
